@@ -50,22 +50,52 @@ def run(chk):
         ok = float(txt) == float(exact)
         chk.ob('R20.1', f'double_factorial table [{n}]', ok, f'literal {txt} -> {float(txt)!r}, but {n}!! = {exact} -> {float(exact)!r}', f'{ms.rel()}:{ln}', key=f'R20.1|table[{n}]', method='exact integer oracle, correctly rounded')
     f = need_func(ms, 'cf_double_factorial')
-    # guard structure: `if n < K: return table[n]` with K == extent
-    first = next((s for s in f.body if isinstance(s, ast.If)), None)
-    ok = False; why = 'first statement is not the table guard'
-    if first is not None and isinstance(first.test, ast.Compare) and isinstance(first.test.ops[0], ast.Lt):
+    # the helper interpreted for EVERY argument its parameter type admits (unsigned char: 0..255), on a table holding the exact tabulated values: no access outside the
+    # table, termination, and the returned value is n!! (Gamma(k+1) read as k!) up to the largest n the C gamma function can serve, NaN beyond
+    import math as _math
+    from ..core import interp as I
+    from ..core.interp import Arr, Opaque, RaiseSignal
+    table = Arr('pre_calculated_doubles'); table.extent = extent
+    for k_ in range(extent):
+        table.store[k_] = dfact(k_)
+
+    def glob_hook(itp, mod, nm):
+        if nm in ('pre_calculated_doubles_ptr', 'pre_calculated_doubles'): return table
+        if nm in ('NAN', 'nan'): return Opaque('nan')
+        return None
+
+    def call_hook(itp, fr_, args, kw, e, frm):
+        nm_ = fr_.node.name if isinstance(fr_, FuncRef) else str(getattr(fr_, 'name', ''))
+        if nm_.split('.')[-1] in ('tgamma', 'gamma') and len(args) == 1:
+            c_ = I.concrete(X.lift(args[0]))
+            if c_ is not None and F(c_).denominator == 1 and 1 <= int(c_) <= 400:
+                return _math.factorial(int(c_) - 1)
+        return NotImplemented
+    bad = []; oob = []; n_nan = 0; first_nan = None
+    for nv in range(256):
+        it = Interp(repo, hooks={'global': glob_hook, 'call': call_hook}, max_depth=300, max_unroll=1000)
+        I.OOB_LOG.clear()
         try:
-            K = ast.literal_eval(first.test.comparators[0]); ok = (K == extent); why = f'guard n < {K} but table extent is {extent}'
-        except Exception:
-            pass
-    chk.ob('R20.1', 'index guard n < extent matches the table extent', ok, why, ms.where(f), method='AST + recorded C array extent')
-    # recursion: tgamma(n+1)/cf(n-1) == n!/(n-1)!! == n!!
-    it = Interp(repo, hooks={'call': lambda itp, fr_, args, kw, e, frm: (X.fn('DF', X.lift(args[0])) if isinstance(fr_, FuncRef) and fr_.node.name == 'cf_double_factorial' and itp.depth >= 1 else NotImplemented),
-                             'if_test': lambda itp, st, frm: (False if isinstance(st.test, ast.Compare) else (True if isinstance(st.test, ast.BoolOp) else None))})
-    n = X.atom('n', 'pos')
-    rec = it.call(ms, f, [n])
-    d = X.Decider(seed=chk.seed, k=3)
-    chk.ob('R20.1', 'recursive branch == Gamma(n+1) / double_factorial(n-1)   (n! = n!! (n-1)!!)', d.equal(rec, X.fn('gamma', n + 1) / X.fn('DF', n - 1)), f'extracted {X.show(rec)[:80]}', ms.where(f), method='GF(p^2) PIT')
+            val = it.call(ms, f, [nv])
+        except AnalysisError as ex:
+            bad.append(f'n = {nv}: {str(ex)[:90]}'); continue
+        except RaiseSignal as ex:
+            bad.append(f'n = {nv}: raises {ex.text[:60]}'); continue
+        if I.OOB_LOG:
+            oob.append(f'n = {nv}: table element {I.OOB_LOG[0][2]} of {extent}')
+        if isinstance(val, Opaque):
+            n_nan += 1
+            if first_nan is None: first_nan = nv
+            continue
+        c_ = I.concrete(X.lift(val))
+        if c_ is None or F(c_) != dfact(nv):
+            bad.append(f'n = {nv}: returns {X.show(X.lift(val))[:40]}, n!! = {dfact(nv)}')
+    chk.ob('R20.1', 'cf_double_factorial(n) for every n in 0..255: no access outside the table', not oob, '; '.join(oob[:3]), ms.where(f), key='R20.1|bounds', method='interpretation over the whole argument domain')
+    chk.ob('R20.1', 'cf_double_factorial(n) == n!! for every n it serves (Gamma(k+1) read as k!)', not bad, '; '.join(bad[:3]), ms.where(f), key='R20.1|value', method='interpretation over the whole argument domain, exact integers')
+    # NaN only where the C gamma function overflows a double (170! is the largest finite factorial) -- and for every such n
+    ok = first_nan == 171 and n_nan == 256 - 171
+    chk.ob('R20.1', 'cf_double_factorial returns NaN exactly for n >= 171 (Gamma(n + 1) overflows a double beyond 170!)', ok, f'NaN for {n_nan} arguments, the first one n = {first_nan}', ms.where(f),
+           key='R20.1|nan-range', method='interpretation over the whole argument domain')
 
     # ---------------------------------------------------------------- R20.6 cf_build_dblcmplx
     fb = need_func(mc, 'cf_build_dblcmplx')
